@@ -1,5 +1,5 @@
 (* Properties/C02.v -- expression substitution applies the filter pipeline in the documented order *)
-From MakoV Require Import Lib.Str Gen.Filters Gen.Template Gen.Unicode Gen.LexerOrder Gen.Parsetree Model.FilterPipe Model.Lexer Proofs.FilterPipeProofs.
+From MakoV Require Import Lib.Str Gen.Filters Gen.Template Gen.Unicode Gen.LexerOrder Gen.Parsetree Model.FilterPipe Model.Lexer Proofs.FilterPipeProofs Proofs.ScanProofs.
 Open Scope N_scope.
 
 Theorem C02_pipeline_cases : forall D P L,
@@ -59,12 +59,29 @@ Theorem C02_other_names_denote_themselves : forall name,
 Proof. exact other_names_denote_themselves. Qed.
 Print Assumptions C02_other_names_denote_themselves.
 
-(* deferred (visible, asserted nowhere): the expression scanner is never cut short by "|", "}",
-   quotes, comments or newlines inside brackets or string literals.  Decided by the correspondence
-   of the lexer model (C01) and by spellings with a known answer in this check. *)
-Definition C02_scan_balanced_statement : Prop := forall (e r : str),
-  (* for every e of the PyBalanced grammar without a top-level stop *) True ->
-  parse_until true [[124]; [125]] (e ++ [125] ++ r) = Some (e, [125], r).
+(* the expression scanner: an expression made of ordinary runs, string literals and comments, in
+   which every "|" and "}" outside literals and comments stands inside brackets (some bracket
+   count positive) and whose brackets are closed at the end, is returned whole -- for any
+   number of segments, any nesting depth, any text after the closing brace *)
+Theorem C02_scan_balanced : forall l r,
+  segs_ok lv0 l -> no_adjacent_runs l ->
+  parse_until true estops (segs_text l ++ cRBRACE :: r) = Some (segs_text l, [cRBRACE], r).
+Proof. exact scan_balanced. Qed.
+Print Assumptions C02_scan_balanced.
+
+Theorem C02_simple_literals_are_opaque : forall q body,
+  (q = cDQ \/ q = cSQ) -> body <> [] ->
+  forallb (fun c => negb (c =? cDQ) && negb (c =? cSQ) && negb (c =? cBSLASH)) body = true ->
+  self_delimiting (q :: body ++ [q]).
+Proof. exact simple_literal_self_delimiting. Qed.
+Print Assumptions C02_simple_literals_are_opaque.
+
+(* non-vacuity of the scanner theorem: {'a|}': x}['a|}'] + f(1 | 2)  # c|}  newline *)
+Example C02_scan_nonvacuous :
+  let l := [SRun (s2l "{"); SLit (s2l "'a|}'"); SRun (s2l ": x}["); SLit (s2l "'a|}'"); SRun (s2l "] + f(1 | 2) ");
+            SCom (s2l "# c|}" ++ [10]); SRun (s2l " ")] in
+  parse_until true estops (segs_text l ++ cRBRACE :: s2l " tail") = Some (segs_text l, [cRBRACE], s2l " tail").
+Proof. vm_compute. reflexivity. Qed.
 
 Example C02_nonvacuous :
   resolved_pipeline [s2l "str"] (Some [s2l "f2"]) [s2l "h"; s2l "wrap('q')"] true
